@@ -285,6 +285,11 @@ func (b *EndpointBuilder) WriteHash(h hash.Hash) {
 		h.Write(Separator)
 		h.WriteString(strconv.FormatBool(bool(b.proxy.Metadata.DisableHBONESend)))
 		h.Write(Separator)
+		// The network filter only keeps the gateways that are reachable with the proxy's IP family.
+		h.WriteString(strconv.FormatBool(b.proxy.SupportsIPv4()))
+		h.Write(Separator)
+		h.WriteString(strconv.FormatBool(b.proxy.SupportsIPv6()))
+		h.Write(Separator)
 	}
 	h.WriteString(util.LocalityToString(b.locality))
 	h.Write(Separator)
